@@ -221,6 +221,8 @@ type EnvNested struct {
 	MC  EnvMethClash
 	U   EnvUnexported
 	Fn  EnvFuncs
+	PFn *EnvFuncs // function-typed fields behind a pointer: PFn.F(1)
+	Sg  ZStringer // a non-empty interface: Sg.String() has no receiver parameter
 }
 
 // recursive type
@@ -274,6 +276,9 @@ type EnvScalars struct {
 	Fy   func(...interface{}) int         // variadic over interface{}, but not fast (result type)
 	Fn   func()                           // no result
 	F2   func() (int, int)                // two results
+	PPSt **ZA                             // two pointer levels
+	Sg   ZStringer                        // a non-empty interface ...
+	Zs   zstr                             // ... and a type implementing it (assignable one way only)
 }
 
 func (EnvScalars) Mi(a int, b string) int           { return a + len(b) }
